@@ -103,7 +103,7 @@ def gen_case(rng):
         for e in m['elements']: e['override'] = rng.random() < 0.5
         # config forms: derivatives are not needed here; exp spec maps to bornmayer(A, rho=1/b): use round b
         def polyonly(spec):
-            return spec if spec['kind'] == 'poly' else dict(kind='poly', coefs=[round(spec['A'] / 100, 3), -round(spec['b'], 3)], deriv=True)
+            return spec if spec['kind'] == 'poly' else dict(kind='poly', coefs=[round(spec.get('A', 150.0) / 100, 3), -round(spec.get('b', 1.0) if isinstance(spec.get('b', 1.0), float) else 1.0, 3)], deriv=True)
         for e in m['elements']:
             e['embed'] = polyonly(e['embed']); e['dens'] = polyonly(e['dens'])
         for p in m['pairs']: p['fn'] = polyonly(p['fn'])
